@@ -114,6 +114,11 @@ type Scope struct {
 	generator   IdentifierGenerator
 	aliases     map[pgsql.Identifier]pgsql.Identifier
 	definitions map[pgsql.Identifier]*BoundIdentifier
+
+	// parameterAliases maps cypher parameter symbols to their synthetic identifiers. Parameters live in a
+	// namespace of their own in cypher ($n and n are unrelated), so they must not share the aliases table
+	// with variables and projection aliases.
+	parameterAliases map[pgsql.Identifier]pgsql.Identifier
 }
 
 func NewScope() *Scope {
@@ -122,6 +127,8 @@ func NewScope() *Scope {
 		generator:   NewIdentifierGenerator(),
 		aliases:     map[pgsql.Identifier]pgsql.Identifier{},
 		definitions: map[pgsql.Identifier]*BoundIdentifier{},
+
+		parameterAliases: map[pgsql.Identifier]pgsql.Identifier{},
 	}
 }
 
@@ -129,6 +136,8 @@ func (s *Scope) PruneDefinitions(protectedIdentifiers *pgsql.IdentifierSet) erro
 	var (
 		prunedAliases     = make(map[pgsql.Identifier]pgsql.Identifier, len(s.aliases))
 		prunedDefinitions = make(map[pgsql.Identifier]*BoundIdentifier, len(s.definitions))
+
+		prunedParameterAliases = make(map[pgsql.Identifier]pgsql.Identifier, len(s.parameterAliases))
 	)
 
 	for _, protectedIdentifier := range protectedIdentifiers.Slice() {
@@ -144,10 +153,18 @@ func (s *Scope) PruneDefinitions(protectedIdentifiers *pgsql.IdentifierSet) erro
 				break
 			}
 		}
+
+		for symbol, identifier := range s.parameterAliases {
+			if identifier == protectedIdentifier {
+				prunedParameterAliases[symbol] = protectedIdentifier
+				break
+			}
+		}
 	}
 
 	s.definitions = prunedDefinitions
 	s.aliases = prunedAliases
+	s.parameterAliases = prunedParameterAliases
 
 	// Prune scope to only what's being exported by the with statement
 	currentFrame := s.CurrentFrame()
@@ -165,6 +182,11 @@ func (s *Scope) Snapshot() *Scope {
 	aliasesCopy := make(map[pgsql.Identifier]pgsql.Identifier)
 	for k, v := range s.aliases {
 		aliasesCopy[k] = v
+	}
+
+	parameterAliasesCopy := make(map[pgsql.Identifier]pgsql.Identifier, len(s.parameterAliases))
+	for k, v := range s.parameterAliases {
+		parameterAliasesCopy[k] = v
 	}
 
 	definitionsCopy := make(map[pgsql.Identifier]*BoundIdentifier)
@@ -192,6 +214,8 @@ func (s *Scope) Snapshot() *Scope {
 		generator:   s.generator,
 		aliases:     aliasesCopy,
 		definitions: definitionsCopy,
+
+		parameterAliases: parameterAliasesCopy,
 	}
 }
 
@@ -319,6 +343,22 @@ func (s *Scope) LookupBindings(identifiers ...pgsql.Identifier) ([]*BoundIdentif
 func (s *Scope) Alias(alias pgsql.Identifier, binding *BoundIdentifier) {
 	binding.Alias = models.OptionalValue(alias)
 	s.aliases[alias] = binding.Identifier
+}
+
+// AliasParameter records the synthetic binding of a cypher parameter symbol. Parameter symbols are kept apart
+// from variable aliases: `MATCH (n) WHERE n.name = $n` refers to two different things named n.
+func (s *Scope) AliasParameter(symbol pgsql.Identifier, binding *BoundIdentifier) {
+	binding.Alias = models.OptionalValue(symbol)
+	s.parameterAliases[symbol] = binding.Identifier
+}
+
+// ParameterLookup resolves a cypher parameter symbol to the binding created for it by AliasParameter.
+func (s *Scope) ParameterLookup(symbol pgsql.Identifier) (*BoundIdentifier, bool) {
+	if identifier, aliased := s.parameterAliases[symbol]; aliased {
+		return s.Lookup(identifier)
+	}
+
+	return nil, false
 }
 
 func (s *Scope) Declare(identifier pgsql.Identifier) {
